@@ -290,4 +290,22 @@ func (x *gen) memoLines() {
 		cmps := []string{"n", "n", "a", "D", "x"}[r.Intn(5)]
 		g.Emit("M "+cmps+" n "+strings.Join(ops, ";"), true, "memo", "memo-big-then-small")
 	}
+	// ---- every size 0..600: bulk Set, probe every key; Delete down to exactly the size at which the tree below
+	// is not yet rebuilt ((250*n+1000)/2000), probe; for every third size (the offset moves with the seed)
+	// one more Delete (the rebuild), probe, Clear, a few keys, probe
+	off := r.Intn(3)
+	for n := 0; n <= 600; n++ {
+		its := strconv.Itoa
+		ops := []string{"B" + string("adzrib"[r.Intn(6)]) + ":0:" + its(n) + ":3:" + its(r.Intn(1000)), "Q1"}
+		thr := (250*n + 1000) / 2000
+		ord := string("lhoibBre"[r.Intn(8)])
+		if thr >= 1 && thr < n {
+			ops = append(ops, "D"+ord+":"+its(thr)+":"+its(r.Intn(1000)), "Q1")
+			if full || n%3 == off {
+				ops = append(ops, "D"+ord+":"+its(thr-1)+":"+its(r.Intn(1000)), "Q2", "c", "l", "k", "t", "F0", "S1=5",
+					"B"+"a"+":1:"+its(1+n%5)+":3:0", "Q2", "t")
+			}
+		}
+		g.Emit("M n n "+strings.Join(ops, ";"), n >= 2, "memo", "size-sweep-0-600")
+	}
 }
